@@ -122,6 +122,49 @@ func init() {
 			rc.infra("runner: %v", err)
 			return
 		}
+		// the in-filter form: commutativity and double negation as equal results
+		fconds, err := readNDJSON[predRow](filepath.Join(rc.Dir, "fconds.ndjson"))
+		if err != nil {
+			rc.infra("%v", err)
+			return
+		}
+		fdocs, err := readNDJSON[DocRow](filepath.Join(rc.Dir, "fdocs.ndjson"))
+		if err != nil {
+			rc.infra("%v", err)
+			return
+		}
+		type fjob struct {
+			p, q, d int
+			lax     bool
+		}
+		var fjobs []fjob
+		for p := range fconds {
+			for q := range fconds {
+				for d := range fdocs {
+					fjobs = append(fjobs, fjob{p, q, d, true}, fjob{p, q, d, false})
+				}
+			}
+		}
+		fgroups, err := buildGroups(len(fjobs), func(i int) ([]Group, error) {
+			j := fjobs[i]
+			p, q := fconds[j.p].P, fconds[j.q].P
+			g := Group{Kind: "C11filter", Lax: j.lax}
+			for _, pr := range []wire.Node{bin("and", p, q), bin("and", q, p), bin("or", p, q), bin("or", q, p), un("not", un("not", p)), p} {
+				pr := pr
+				r, err := execG(wire.Path{Lax: j.lax, Chain: []wire.Node{{K: "root"}, {K: "anyarr"}, {K: "filter", P: &pr}}}, fdocs[j.d].Doc, nil, false)
+				if err != nil {
+					return nil, err
+				}
+				g.Runs = append(g.Runs, r)
+			}
+			return []Group{g}, nil
+		})
+		if err != nil {
+			rc.infra("runner: %v", err)
+			return
+		}
+		groups = append(groups, fgroups...)
+
 		// random condition pairs on random documents
 		n := 4000
 		if rc.Tier == "thorough" {
@@ -165,5 +208,24 @@ func init() {
 		rc.cov("universe", map[string]any{"conditions": len(conds), "exists_operands": len(exprs), "docs": len(docs),
 			"table_groups": len(groups), "random_groups": len(rgroups)})
 		rc.groupFamily(all, rerunC11, "C11")
+
+		// every compound of the tables against the rules (PathSem), so that an
+		// operand whose own outcome is wrong (e.g. false instead of unknown) is
+		// seen even though the connective table applied to it is right
+		u := &ExecUniverse{Docs: docs, Vars: []VarsRow{{Vars: []wire.Var{}}}}
+		for p := range conds {
+			u.Paths = append(u.Paths, PathRow{Pred: true, Chain: []wire.Node{conds[p].P}})
+			for q := range conds {
+				for _, pr := range c11Preds(conds[p].P, conds[q].P)[2:4] {
+					u.Paths = append(u.Paths, PathRow{Pred: true, Chain: []wire.Node{pr}})
+				}
+			}
+		}
+		for _, e := range exprs {
+			u.Paths = append(u.Paths, PathRow{Pred: true, Chain: []wire.Node{{K: "un", Op: "exists", X: e.Chain}}})
+		}
+		u.cross([]bool{true, false})
+		rc.cov("predicate_checks_judged_against_the_rules", len(u.Cases))
+		rc.execFamily(u, "C11", "C01")
 	}
 }
